@@ -150,6 +150,12 @@ class TraceInterpreter(ArchSpecInterpreter):
 
         if not isinstance(mt.code, (action.TweezerFunction, func.Lambda)):
             raise ValueError("Method code must be a MoveFunction or Lambda")
+        # keyword arguments have to bind every remaining parameter before the interpreter
+        # takes over: `run` binds them with its evaluation lock already set and does not
+        # release it when that fails, which would leave this instance unusable for later traces
+        missing = [name for name in mt.arg_names[len(args) + 1 :] if name not in kwargs]
+        if kwargs and missing:
+            raise InterpreterError(f"Missing arguments: {', '.join(missing)}")
         self.run(mt, args=args, kwargs=kwargs)
         return self.trace.copy()
 
